@@ -502,7 +502,18 @@ where
             });
 
         // Move entries out of the map — avoids Vec clone
-        let entries = entries_per_peer.remove(&peer_id).unwrap_or_default();
+        let mut entries = entries_per_peer.remove(&peer_id).unwrap_or_default();
+
+        // Send only the run that is contiguous from prev_log_index + 1. When the legacy entries
+        // were capped, the new entries that follow them do not abut; the follower appends
+        // whatever it is given, so a gapped request would leave a hole in its log. The dropped
+        // entries are picked up as legacy entries once next_index reaches them.
+        let contiguous = entries
+            .iter()
+            .zip(prev_log_index.saturating_add(1)..)
+            .take_while(|(e, expected)| e.index == *expected)
+            .count();
+        entries.truncate(contiguous);
 
         debug!(
             "[Leader {} -> Follower {}] Replicating {} entries",
